@@ -186,10 +186,13 @@ structure State where
   tiles : List ((Nat × Nat × Nat) × Bytes)     -- later entries win
 deriving Repr
 
-/-- add one classified tile (format / compression consistency checks) -/
+/-- add one classified tile (format / compression consistency checks, coordinate inside its level) -/
 def addTile (s : State) (z x y : Nat) (f : TileFormat) (c : TComp) (payload : Bytes) : Outcome State :=
   if s.fmt.isSome && s.fmt ≠ some f then .err
   else if s.comp.isSome && s.comp ≠ some c then .err
+  -- `ensure!((x as u64) < (1u64 << z) && (y as u64) < (1u64 << z))` (/repo b9f3d83c): a coordinate outside of
+  -- its zoom level makes open fail (both outcomes before it are errors as well, so the order is immaterial)
+  else if x ≥ 2 ^ z || y ≥ 2 ^ z then .err
   else .ok ⟨some f, some c, ((x, y, z), payload) :: s.tiles⟩
 
 def tarStep (K : Inflate) (s : State) (file : File) : Outcome State :=
@@ -408,7 +411,11 @@ def handle (stream : String) (args : List String) : String :=
       pure (match bytesToChars n with
         | none => "err"
         | some name => match classifyTar name with
-          | .tile z x y f c => s!"tile {z} {x} {y} {f.name} {c.name}"
+          | .tile z x y f c =>
+            -- one-member archive: the verdict of `addTile` on the empty state (coordinate inside its level)
+            match addTile ⟨none, none, []⟩ z x y f c [] with
+            | .ok _ => s!"tile {z} {x} {y} {f.name} {c.name}"
+            | _ => "err"
           | .metaJson _ => "skip"
           | .skip => "skip"
           | .fail => "err")
